@@ -65,8 +65,12 @@ class ClassInfo:
         self.attr_nodes = {}   # name -> ast expr (class-level assignment)
         self.ann_fields = []   # annotated names in order (dataclass / NamedTuple fields)
         self.ann_defaults = {}  # name -> ast expr
+        self.setters = {}
         for st in node.body:
             if isinstance(st, (ast.FunctionDef, ast.AsyncFunctionDef)):
+                if any(ast.unparse(d).endswith(".setter") for d in st.decorator_list):
+                    self.setters[st.name] = st       # property setter: does not replace the getter
+                    continue
                 self.methods[st.name] = FuncInfo(module, "%s.%s" % (name, st.name), st, cls=self,
                                                  decorators=st.decorator_list)
             elif isinstance(st, ast.Assign):
